@@ -265,7 +265,13 @@ pub fn record(corpus_dir: &str, trace: &mut NdjsonWriter, out: &mut Outcome) {
             continue;
         }
         let any = samples.iter().any(|s| ["pre", "post", "se", "srs"].iter().any(|k| !s[*k].as_array().unwrap().is_empty()));
-        trace.push(&json!({"k": "program", "src": f.file_name().unwrap().to_string_lossy(), "samples": samples}));
+        // the projected tree of the program as written; its lines are those of every sample when no replaced
+        // directive spans a line break (a pragma line put in front of a file without one shifts them by one)
+        let tree_ok = spans.iter().all(|(a, b)| !src[*a..*b].contains('\n'));
+        let shift = if spans.is_empty() { 1 } else { 0 };
+        let tree = if tree_ok { crate::project::project_source(&src).map(|t| t.to_json_with_lines(&src)) } else { None };
+        trace.push(&json!({"k": "program", "src": f.file_name().unwrap().to_string_lossy(), "samples": samples,
+                           "tree_ok": tree.is_some(), "shift": shift, "tree": tree.unwrap_or(json!([]))}));
         out.evaluations += 1;
         if any {
             out.nontrivial += 1;
